@@ -265,6 +265,16 @@ class BundleFlattener(ElabPass):
             msg = f"Invalid Port Connection to {portname} on Instance {inst}"
             self.fail(msg)
 
+        # A flattened port must not take the place of a connection the designer made under its name to a port the
+        # target never had (`2 * C(b=ob, b_x=s)`: `b_x` is what member `x` of port `b` becomes). `ConnTypes` refuses that
+        # for `Instance`s; connections to `InstanceArray`s are first seen here, and would be overwritten without notice.
+        declared = inst.of._pre_flattening_io if isinstance(inst.of, Module) else None
+        if declared is not None:
+            for flat_port in flat_bundle_port.signals.values():
+                if flat_port.name in inst.conns and flat_port.name not in declared:
+                    msg = f"Connection to non-existent Port `{flat_port.name}` on Instance `{inst.name}`"
+                    self.fail(msg)
+
         # Disconnect the old hierarchical Bundle port
         inst.disconnect(portname)
 
